@@ -77,6 +77,12 @@ POOL = [
         svc("1810", ch("2a00", bind(64), N), ch("2a01", bind(23)), ch("2a02", bind(64), enc=[R]), ch("2a03", handler(30))),
         mtu=65, wq=142),
     srv("v_wqnone", svc("1810", ch("2a00", bind(4)), ch("2a01", bind(2), N, enc=[R])), mtu=23),
+    # ---- values longer than 256 octets: every 16 bit field (value offset of Read Blob / Prepare Write, queued offset,
+    #      element length in the queue) has to be used at full width; queue large enough for fragments crossing 256 / 512
+    srv("v_long",
+        svc("1810", ch("2a00", bind(300)), ch("2a01", bind(600), N), ch("2a02", handler(300)), ch("2a03", bind(2)),
+            ch("2a04", cstr("x" * 280))),
+        mtu=300, wq=700),
 ]
 
 
@@ -339,6 +345,61 @@ def gen_gap_handles(rng, vi):
                     "16%s0000%s" % (le16(h), AC.rnd_hex(rng, 1)), "1801", "0a%s" % le16(h), "0c%s0000" % le16(h), "52%s0100" % le16(h)):
             ops.append("in %d %s %d" % (rng.randrange(2), pdu, vi.mtu))
             ops += vals
+        cases.append(ops)
+    return cases
+
+
+WIDE = [255, 256, 257, 511, 512]
+
+
+def gen_wide_offsets(rng, vi):
+    """values longer than 256 octets: 16 bit fields at full width. Prepared writes and Read Blob at the offsets
+    255, 256, 257, 511, 512, size-1, size, size+1; a long write split into queued fragments that cross offset 256
+    (and 512); execute, then the variable and the value (read in blobs) are inspected"""
+    cases = []
+    for d in vi.chars:
+        size = d["size"]
+        if size <= 256 or not d["vh"] or d["k1"]:
+            continue
+        h = le16(d["vh"])
+        offs = sorted(set(o for o in WIDE + [size - 1, size, size + 1] if o <= 0xffff))
+        show = ["val %d" % d["ci"]] if d["var"] and not d["whandler"] else []
+        # single prepared writes at each offset, executed one by one
+        ops = ["in 0 02%s 300" % le16(300)]
+        for off in offs:
+            n = rng.choice([1, 2, 4])
+            ops += ["in 0 16%s%s%s 300" % (h, le16(off), AC.rnd_hex(rng, n)), "in 0 1801 300"] + show
+            ops += ["in 1 0c%s%s %d" % (h, le16(max(0, off - 1)), rng.choice([23, 300]))]
+        cases.append(ops)
+        # Read Blob at every offset with a small and a large MTU
+        ops = []
+        for off in offs:
+            ops += ["in 2 0c%s%s 23" % (h, le16(off))]
+        ops += ["in 2 02%s 300" % le16(300)] + ["in 2 0c%s%s 300" % (h, le16(off)) for off in offs]
+        cases.append(ops)
+        if vi.wq is None or not d["var"]:
+            continue
+        # one long write as queued fragments crossing 256 (and 512), in order and in reverse order
+        frag = rng.choice([60, 100, 128])
+        cost = frag + 6
+        k = max(1, min((size + frag - 1) // frag, vi.wq // cost))
+        pieces = [(i * frag, min(frag, size - i * frag)) for i in range(k) if i * frag < size]
+        for order in (pieces, list(reversed(pieces))):
+            ops = []
+            for off, n in order:
+                ops.append("in 0 16%s%s%s %d" % (h, le16(off), AC.rnd_hex(rng, n), rng.choice([23, 300])))
+            ops += ["in 1 1801 300"] + show + ["in 0 1801 300"] + show
+            for off in (0, 250, 256, 500):
+                if off <= size:
+                    ops.append("in 0 0c%s%s 300" % (h, le16(off)))
+            cases.append(ops)
+        # fragments that start exactly at 256 / 257 / 512, and one that ends past the value
+        ops = []
+        for off in [o for o in (255, 256, 257, 511, 512) if o < size]:
+            ops.append("in 2 16%s%s%s 300" % (h, le16(off), AC.rnd_hex(rng, min(8, size - off))))
+        ops += ["in 2 1801 300"] + show
+        ops += ["in 2 16%s%s%s 300" % (h, le16(size - 2), AC.rnd_hex(rng, 4)), "in 2 1801 300"] + show
+        ops += ["in 2 16%s%s%s 300" % (h, le16(256), AC.rnd_hex(rng, 3)), "in 2 1800 300"] + show
         cases.append(ops)
     return cases
 
